@@ -234,6 +234,6 @@ package satisfaction
 
 // the parameter schema listed for this method is that of its parameter struct
 //@ func (*Satisfaction).MethodParameters
-//@   property C20
+//@   property C20 C01 C09 C13
 //@   nopanic
 //@   ensures [schema_of_the_methods_parameters] typeis(result, SatisfactionParameters)
